@@ -674,6 +674,20 @@ func (f *Frame) enterLoop(li *loopInfo, back map[[2]*ssa.BasicBlock]bool) {
 			}
 		}
 	}
+	if f.contract != nil && f.contract.LoopPub != nil {
+		for _, name := range f.contract.LoopPub[li.ordinal] {
+			found := false
+			for p, v := range entryPhi {
+				if p.Comment == name {
+					f.publish(v.Prov.closure(), nil)
+					found = true
+				}
+			}
+			if !found {
+				ex.fail("%s: loop %d publishes %s: no such loop variable", f.key, li.ordinal, name)
+			}
+		}
+	}
 	clauses := f.loopClauses(li)
 	auto := f.autoInvariants(li)
 	li.entryWM = f.st.wm
